@@ -47,6 +47,23 @@ def record_and_judge(tag, tier, n_quick=150, n_thorough=3000, max_objects=8):
     return recs, verdicts, states, trans
 
 
+def resave_and_judge(tag, files, tier):
+    """files of other producers (the specification's Producer) are loaded and saved plainly by lopdf (c01 resave);
+    Trace_Lifecycle judges the saved file against the loaded document and the reload against it"""
+    w = workdir(tag + "-resave")
+    fin, tr = os.path.join(w, "files.ndjson"), os.path.join(w, "trace.ndjson")
+    vlib.write_ndjson(fin, [{"bytes": f["bytes"]} for f in files])
+    run_bin("c01", ["resave", "--in", fin, "--out", tr])
+    recs = read_ndjson(tr)
+    bounds = [i for i, r in enumerate(recs) if r["ev"] == "Reset"]
+    verdicts, states, trans = vlib.validate_trace("Trace_Lifecycle.tla", "Trace_Lifecycle.cfg", recs, tag + "-resave",
+                                                  boundaries=bounds, chunks=1 if tier == "quick" else 8)
+    expected = sum(1 for r in recs if r["ev"] in ("Save", "Load", "File"))
+    if len(verdicts) != expected:
+        raise vlib.ToolError("trace validator judged %d of %d calls (resave)" % (len(verdicts), expected))
+    return recs, verdicts, states, trans
+
+
 def add_sequential_loads(w, recs):
     """every first-cycle saved file is also loaded by a lopdf built without the rayon feature (harness-seq);
     the extra Load event follows the parallel build's Load and is judged against the same saved document"""
